@@ -29,7 +29,7 @@ ASSUMPTIONS = ['thread schedules are sampled (sys.setswitchinterval(1e-6)), not 
 SHARDS = {'quick': (16, 90), 'thorough': (16, 2500)}
 BUDGET = {'quick': 100, 'thorough': 1500}
 MIN_NONTRIVIAL = {'quick': 300, 'thorough': 5000}
-CFG = {'long_str_pct': 0, 'max_depth': 3, 'any': False, 'real10_pct': 0, 'max_comps': 3, 'constructed_default_pct': 35}
+CFG = {'long_str_pct': 0, 'max_depth': 3, 'any': True, 'real10_pct': 0, 'max_comps': 3, 'constructed_default_pct': 35}
 
 
 def shards(tier):
